@@ -19,7 +19,7 @@ from koala import example_graphs as eg
 DRIVERS = ("c06",)
 TRANSLATORS = ("ansatz",)
 MODEL_TARGETS = ["Model/AStar.vo", "Model/FluxSolver.vo", "Gen/AnsatzGen.vo"]
-TARGETS = ["Proofs/AStarFacts.vo", "Proofs/AStarOptimal.vo", "Proofs/AStarBudget.vo", "Proofs/ChainFlipFacts.vo", "Proofs/FluxSolverFacts.vo", "Proofs/AnsatzFacts.vo"]
+TARGETS = ["Proofs/AStarFacts.vo", "Proofs/AStarOptimal.vo", "Proofs/AStarBudget.vo", "Proofs/ChainFlipFacts.vo", "Proofs/FluxSolverFacts.vo", "Proofs/AnsatzFacts.vo", "Proofs/GreedyPairingFacts.vo"]
 LEVEL = "proof"
 TRUST = [
     "hand-written Gallina model coq/Model/FluxSolver.v of flux_finder.py (fluxes_from_ujk, fluxes_from_bonds, _flip_adjacent_fluxes, _flip_isolated_fluxes, "
@@ -216,6 +216,8 @@ def check_wf(ctx, case, lat, label):
     if "error" in o:
         raise RuntimeError(f"c06 driver wf: {' '.join(o['error'])}")
     st["extracted_checker"] += 1
+    if getattr(ctx, "xc06", None) is not None and lat.n_vertices <= XCHECK_MAX_V:
+        ctx.xc06["wf"].append((lat, o))
     if o["wf"][0] != "1":
         ctx.k_mismatch(f"{label}: fs_wf rejects the implementation's (plaquettes, adjacent_plaquettes) tables", {"lattice": case})
         return False
@@ -285,6 +287,8 @@ def eval_lattice(ctx, case, lat, combos, label):
         if "error" in o:
             raise RuntimeError(f"c06 driver: {' '.join(o['error'])}")
         res.traces += 1
+        if getattr(ctx, "xc06", None) is not None and lat.n_vertices <= XCHECK_MAX_V:
+            ctx.xc06["solve"].append((lat, rcase, calls, o))
         if o["pairing_ok"][0] != "1":
             ctx.k_mismatch(f"{label}: captured pairing {[(c[0], c[1]) for c in calls]} is not a perfect matching of the defects {o['defects'][1:]} minus the last when odd (fs_pairing_ok)", rcase)
         if any(x != "1" for x in o["paths_ok"][1:]):
@@ -299,6 +303,127 @@ def eval_lattice(ctx, case, lat, combos, label):
             ctx.k_mismatch(f"{label}: model bonds differ from the implementation's on {nd} edges", rcase)
         res.sample({"case": rcase["lattice"], "solver": SOLVERS[rcase["conv"]][0], "F": len(o["flux0"]) - 1, "plaquettes_to_change": D,
                     "pairs": [(c_[0], c_[1]) for c_ in calls][:6]})
+    # greedy-pairing replay (see check_greedy)
+    check_greedy(ctx, label, lat, [(rcase, [int(x) for x in o["defects"][1:]], [(c_[0], c_[1]) for c_ in calls])
+                                   for (rcase, r, calls, D), o in zip(metas, outs) if "defects" in o])
+
+
+# ================================================================== BEGIN greedy-pairing replay (K for C06_solver_contract_greedy)
+GREEDY_MAX_F = 1200      # the extracted set operations are O(d^2 * F) on unary nat; beyond this F the replay is skipped and counted
+
+
+def check_greedy(ctx, label, lat, items):
+    """K(greedy): the model greedy_pairing (Model/FluxSolver.v, proved to meet fs_pairing_ok for EVERY admissible oracle pair) run with
+    oracles that replay the implementation's own choices (set.pop -> the captured `cur`, float min -> the captured `closest`)
+    must return exactly the pairs the implementation produced, in order, and must end normally.
+    items: (rcase, defects (the model's argument of the pairing), captured pairs)."""
+    st = ctx.res.extra.setdefault("greedy_replay", {"runs_compared": 0, "pairs_compared": 0, "max_defects": 0, "skipped_F_too_large": 0})
+    if lat.n_plaquettes > GREEDY_MAX_F:
+        st["skipped_F_too_large"] += len(items)
+        return
+    lines = []
+    for _, defects, pairs in items:
+        toks = ["greedy", str(len(defects))] + [str(d) for d in defects] + [str(len(pairs))]
+        for a, b in pairs:
+            toks += [str(a), str(b)]
+        lines.append(" ".join(toks))
+    outs = run_driver_parallel(ctx.exe["c06"], lines)
+    for (rcase, defects, pairs), o in zip(items, outs):
+        if "error" in o:
+            raise RuntimeError(f"c06 driver greedy: {' '.join(o['error'])}")
+        st["runs_compared"] += 1
+        st["pairs_compared"] += len(pairs)
+        if getattr(ctx, "xc06", None) is not None and lat.n_vertices <= XCHECK_MAX_V:
+            ctx.xc06["greedy"].append((defects, pairs, o))
+        st["max_defects"] = max(st["max_defects"], len(defects))
+        if o["greedy"][0] != "PAIRS":
+            ctx.k_mismatch(f"{label}: model greedy pairing replaying the implementation's choices ends with {o['greedy'][0]} on defects {defects}", rcase)
+            continue
+        flat = [int(x) for x in o["greedy"][2:]]
+        mp = [(flat[2 * i], flat[2 * i + 1]) for i in range(len(flat) // 2)]
+        if o["greedy_ok"][0] != "1":
+            ctx.k_mismatch(f"{label}: model greedy pairing {mp} fails fs_pairing_ok on {defects} (contradicts greedy_pairing_ok: defects not duplicate-free?)", rcase)
+        if mp != [(int(a), int(b)) for a, b in pairs]:
+            ctx.k_mismatch(f"{label}: the implementation's pairs {pairs} are not a run of the greedy-pairing model on defects {defects}: "
+                           f"replaying its own pop/min choices the model yields {mp}", rcase)
+# ================================================================== END greedy-pairing replay
+
+
+# ------------------------------------------------------------------ extraction cross-check (DESIGN 1.3)
+XCHECK_MAX_V = 40
+
+
+def coq_crosscheck(ctx):
+    """A small random sample of the c06 driver's answers collected in ctx.xc06 during the K phase (commands solve, wf, greedy on
+    lattices with V <= 40, and the whole ansatz table) is re-derived INSIDE Coq by vm_compute on the same literals (the
+    implementation's plaquettes / adjacent_plaquettes table, target, guess, captured pairs and paths) and must coincide."""
+    import xcheck as X
+    xc, ctx.xc06 = ctx.xc06, None
+    quick = ctx.tier == "quick"
+    rng = np.random.default_rng([ctx.seed, 6, 99])
+
+    def pick(xs, k):
+        return [xs[i] for i in sorted(rng.choice(len(xs), size=min(len(xs), k), replace=False).tolist())] if xs else []
+    ep_lit = lambda lat: X.lst(X.pair(X.onat, X.onat), [(None if a == INVALID else int(a), None if b == INVALID else int(b))
+                                                          for a, b in lat.edges.adjacent_plaquettes])
+    plaqs_lit = lambda lat: X.lst(lambda p: X.lst(X.pair(X.nat, X.z), [(int(e), int(d)) for e, d in zip(p.edges, p.directions)]), lat.plaquettes)
+    nl, bl = X.natlist, lambda toks: X.lst(lambda t: X.boolean(t == "1"), toks)
+    body = [
+        # the driver's path oracle: List.assoc_opt (a, b) among the captured paths
+        "Definition xpath (paths : list ((nat * nat) * (list nat * list nat))) (a b : nat) : option (list nat * list nat) :=",
+        "  option_map snd (find (fun r => (fst (fst r) =? a)%nat && (snd (fst r) =? b)%nat) paths).",
+    ]
+    g = lambda lhs, rhs: body.append(X.goal(lhs, rhs))
+    lats = {}
+
+    def lat_defs(lat):
+        if id(lat) not in lats:
+            n = lats[id(lat)] = len(lats)
+            body.append(f"Definition P{n} : list fs_plaq := {plaqs_lit(lat)}.")
+            body.append(f"Definition EP{n} : list (option nat * option nat) := {ep_lit(lat)}.")
+        return lats[id(lat)]
+    for lat, o in pick(xc["wf"], 4 if quick else 30):
+        n = lat_defs(lat)
+        g(f"fs_wf P{n} EP{n}", X.boolean(o["wf"][0] == "1"))
+    # half of the solver calls from those with at least two captured paths (the path oracle and fs_neg_set are exercised)
+    k = 10 if quick else 90
+    rich = pick([x for x in xc["solve"] if len(x[2]) >= 2], k // 2)
+    for lat, rcase, calls, o in rich + pick([x for x in xc["solve"] if len(x[2]) < 2], k - len(rich)):
+        n = lat_defs(lat)
+        conv = rcase["conv"]
+        t_eff = np.full(lat.n_plaquettes, -1 if conv == 0 else 1, dtype=int) if rcase["target"] is None else np.asarray(rcase["target"], dtype=int)
+        g_eff = np.ones(lat.n_edges, dtype=int) if rcase["guess"] is None else np.asarray(rcase["guess"], dtype=int)
+        flux = f"({'fs_fluxes_ujk' if conv == 0 else 'fs_fluxes_bonds'} P{n})"
+        T, G = X.zlist(t_eff), X.zlist(g_eff)
+        pairs = X.lst(X.natpair, [(c[0], c[1]) for c in calls])
+        paths = X.lst(lambda c: f"(({X.nat(c[0])}, {X.nat(c[1])}), ({nl(c[2])}, {nl(c[3])}))", calls)
+        defects = [int(x) for x in o["defects"][1:]]
+        g(f"{flux} {G}", X.zlist([unhx(x) for x in o["flux0"][1:]]))
+        g(f"fs_where_neg (snd (fs_flip_adjacent EP{n} 0%nat {G} (fs_map2 Z.div {T} ({flux} {G}))))", nl(defects))
+        g(f"fs_pairing_ok {nl(defects)} {pairs}", X.boolean(o["pairing_ok"][0] == "1"))
+        g(f"map (fun ab => fs_path_ok EP{n} (fst ab) (snd ab) (xpath {paths} (fst ab) (snd ab))) {pairs}", bl(o["paths_ok"][1:]))
+        want = {"LEFTOVER": "FS_LeftoverError", "MISMATCH": "FS_MismatchError", "PATHERR": "FS_PathError"}.get(o["res"][0])
+        if want is None:
+            c = Cursor(o["res"][1:])
+            want = "FS_Ok " + X.zlist(c.list(c.z))
+        g(f"fs_solve {flux} EP{n} (fun _ => {pairs}) (xpath {paths}) {T} {G}", want)
+    for defects, pairs, o in pick(xc["greedy"], 6 if quick else 60):
+        caps = X.lst(X.natpair, pairs)
+        if o["greedy"][0] == "PAIRS":
+            flat = [int(x) for x in o["greedy"][2:]]
+            want = "FG_Pairs " + X.lst(X.natpair, [(flat[2 * i], flat[2 * i + 1]) for i in range(len(flat) // 2)])
+        else:
+            want = {"MINEMPTY": "FG_MinEmptyError", "FUEL": "FG_OutOfFuel"}[o["greedy"][0]]
+        g(f"fs_greedy_run (fs_replay_pick {caps}) (fs_replay_nearest {caps}) {nl(defects)}", want)
+        g(f"fs_pairing_ok {nl(defects)} (greedy_pairing (fs_replay_pick {caps}) (fs_replay_nearest {caps}) {nl(defects)})", X.boolean(o["greedy_ok"][0] == "1"))
+    if xc["ansatz"] is not None:
+        ns, gsa, sr = xc["ansatz"]
+        g(f"map ground_state_ansatz {X.zlist(ns)}", X.zlist(gsa))
+        g(f"map fs_sign_real {nl(ns)}", X.zlist(sr))
+    res = ctx.res
+    res.extra["extraction_crosscheck_goals_vm_compute"] = X.compile_goals("c06", "Model.AStar Model.FluxSolver Gen.AnsatzGen", body, "c06")
+    res.extra["extraction_crosscheck_pool"] = {k: (len(v) if k != "ansatz" else int(v is not None)) for k, v in xc.items()}
+    res.extra["extraction_crosscheck_wall_s"] = X.LAST_WALL
 
 
 def build_lattice(case):
@@ -394,6 +519,8 @@ def eval_ansatz_table(ctx):
         raise RuntimeError(" ".join(o["error"]))
     gsa = [unhx(x) for x in o["gsa"][1:]]
     sr = [unhx(x) for x in o["sr"][1:]]
+    if getattr(ctx, "xc06", None) is not None:
+        ctx.xc06["ansatz"] = (ns, gsa, sr)
     table = [1, -1, -1, 1]
     for n, g, s in zip(ns, gsa, sr):
         ctx.res.traces += 1
@@ -413,8 +540,10 @@ def run(ctx):
                     "only lattices whose plaquette-adjacency graph is connected; per lattice x {ujk_from_fluxes, find_flux_sector}: default arguments, all 2^F targets when F <= "
                     f"{9 if quick else 10} (alternating default / random guess), else random sparse/dense targets (int8 and int64) with random guesses; "
                     "make_amorphous L=3..8 both boundary conditions, 2 (quick) / 12 seeds + the two recorded failing seeds; non-trivial = at least 2 plaquettes have to change")
+    ctx.xc06 = {"wf": [], "solve": [], "greedy": [], "ansatz": None}     # driver answers on small lattices, for the extraction cross-check
     eval_ansatz_table(ctx)
     evaluate(ctx, c06_lattice_cases(ctx.tier, ctx.seed), "K(solver)", 9 if quick else 10)
+    coq_crosscheck(ctx)      # extraction cross-check: a sample of the driver's answers re-derived inside Coq
     eval_amorphous(ctx, ctx.tier)
 
 
